@@ -10,24 +10,124 @@ import run_wrapper as rw
 NTRACES = {'quick': 360, 'thorough': 4800}
 RULE = ('wrapper traces (12 decorators x backends none/null/dict/file/dir/bare) with 1-2 dill.loads(dill.dumps(f)) inserted; '
         'at the round-trip: equal info(), cache, archive, parked archive, configuration; afterwards the copy must continue '
-        'exactly as the model of the original would; independence of the original checked after every later op')
+        'exactly as the model of the original would; independence of the original checked after every later op; plus relocation cases: '
+        'raw keys holding identity-compared instances and NULL / SENTINEL, (function, arguments) pickled together - the copy holds the '
+        'relocated keys, answers through the copied objects and continues in lock-step (hypotheses and conclusion of C20_pickle_lockstep)')
+
+
+# ------------------------------------------------------------------ the round trip as a relocation of objects (Props/C20Pickle.lean)
+class Thing(object):
+    """an argument with the default identity __eq__/__hash__; pickled by value: the copy is a new object"""
+    def __init__(self, n): self.n = n
+
+
+def target(obj, x, y=0):
+    return (obj.n, x, y)
+
+
+def reloc_case(a):
+    """keys that hold identity-compared instances and klepto's singletons (NULL from `ignore`, SENTINEL): after ONE pickle of
+    (function, its argument objects) the copy must hold the relocated keys - every instance replaced by ITS copy, the singletons
+    the very same objects -, answer lookups through the copied objects, and continue in lock-step (C20_pickle_lockstep)"""
+    tier, idx = a
+    import random, dill, klepto, klepto.safe
+    from klepto.keymaps import keymap, SENTINEL
+    from klepto._inspect import NULL
+    r = rng('reloc', tier, idx)
+    algo = ['lru', 'lfu', 'mru', 'rr', 'inf'][idx % 5]; safe = (idx // 5) % 2 == 1
+    kmk = ['plain', 'sentinel', 'typed', 'typed-sentinel'][(idx // 10) % 4]
+    ign = [None, ('y',), ('y', 1)][(idx // 40) % 3]
+    cfg = dict(reloc=True, idx=idx, tier=tier, algo=algo, safe=safe, keymap=kmk, ignore=ign)
+    viol = []
+    def bad(kind, msg): viol.append(dict(prop='C20', i=0, sig=dict(kind=kind, algo=algo, keymap=kmk), msg='%s.%s_cache(raw keymap %s, ignore=%r): %s' % ('safe' if safe else 'klepto', algo, kmk, ign, msg), cfg=cfg, ops=[]))
+    try:
+        km = dict(plain=lambda: keymap(), sentinel=lambda: keymap(sentinel=SENTINEL), typed=lambda: keymap(typed=True), **{'typed-sentinel': lambda: keymap(typed=True, sentinel=SENTINEL)})[kmk]()
+        kw = dict(keymap=km)
+        if ign is not None: kw['ignore'] = ign
+        if algo != 'inf': kw['maxsize'] = 3
+        f = getattr(klepto.safe if safe else klepto, algo + '_cache')(**kw)(target)
+        objs = [Thing(i) for i in range(4)]
+        random.seed(idx)
+        for _ in range(r.choice([4, 8, 12])):
+            f(objs[r.randrange(4)], r.randrange(3))
+        g, cobjs = dill.loads(dill.dumps((f, objs)))
+        if any(c is o for c, o in zip(cobjs, objs)) or len(set(map(id, cobjs))) != 4:
+            return dict(cfg=cfg, viol=viol, err='the harness assumes dill copies instances by value, one copy each', n=0)
+        back = {id(o): c for o, c in zip(objs, cobjs)}
+        def reloc(k):
+            if isinstance(k, tuple): return tuple(reloc(e) for e in k)
+            if isinstance(k, dict): return {n: reloc(v) for n, v in k.items()}
+            return back.get(id(k), k)
+        def same(k1, k2):
+            """k2 is k1 relocated: instances are THEIR copies, NULL / SENTINEL the same objects, the rest equal values"""
+            if isinstance(k1, tuple): return isinstance(k2, tuple) and len(k1) == len(k2) and all(same(x, y) for x, y in zip(k1, k2))
+            if isinstance(k1, dict): return isinstance(k2, dict) and list(k1) == list(k2) and all(same(k1[n], k2[n]) for n in k1)
+            if isinstance(k1, Thing): return k2 is back[id(k1)]
+            if k1 is NULL or k1 is SENTINEL or isinstance(k1, type): return k2 is k1
+            return type(k1) is type(k2) and k1 == k2
+        def compare(when):
+            kf, kg = list(f.__cache__()), list(g.__cache__())
+            if len(kf) != len(kg) or not all(same(x, y) for x, y in zip(kf, kg)):
+                wrong = [('singleton-not-restored' if any(e is NULL or e is SENTINEL for e in (x if isinstance(x, tuple) else (x,))) else 'keys-not-relocated')
+                         for x, y in zip(kf, kg) if not same(x, y)] or ['keys-not-relocated']
+                bad(wrong[0], '%s the copy\'s cache keys are not the relocated keys of the original: %.200r vs %.200r' % (when, kg, kf)); return False
+            if [f.__cache__()[k] for k in kf] != [g.__cache__()[k] for k in kg] or tuple(f.info()) != tuple(g.info()):
+                bad('copy-differs', '%s values or info() differ: %r vs %r' % (when, tuple(g.info()), tuple(f.info()))); return False
+            return True
+        if compare('right after the round trip'):
+            for i in range(4):
+                for x in range(3):
+                    outs = []
+                    for h, os_ in ((f, objs), (g, cobjs)):
+                        try: outs.append(('ret', h.lookup(os_[i], x)))
+                        except KeyError: outs.append(('KeyError',))
+                        except Exception as e: outs.append(('exc', type(e).__name__))
+                    if outs[0] != outs[1]:
+                        bad('relocated-entry-not-found', 'lookup(obj%d, %d): original %r, copy (through the copied object) %r' % (i, x, outs[0], outs[1])); break
+                if viol: break
+            for step in range(12):
+                if viol: break
+                i, x = r.randrange(4), r.randrange(4)
+                st = random.getstate()
+                o1 = f(objs[i], x); random.setstate(st); o2 = g(cobjs[i], x)
+                if o1 != o2: bad('copy-continues-differently', 'call %d (obj%d, %d): original %r copy %r' % (step, i, x, o1, o2)); break
+                if not compare('after %d further calls' % (step + 1)): break
+        return dict(cfg=cfg, viol=viol, err=None, n=1)
+    except Exception:
+        import traceback
+        return dict(cfg=cfg, viol=viol, err=traceback.format_exc()[-1200:], n=0)
 
 
 def explore(prop, tier):
     with Pool(NPROC) as p:
         trs = p.map(sw.work_clone, [(tier, i) for i in range(NTRACES[tier])], chunksize=4)
+        rel = p.map(reloc_case, [(tier, i) for i in range(NTRACES[tier] // 3)], chunksize=4)
     errors = [t['err'] for t in trs if t['err']]
     trs = [t for t in trs if not t['err']]
     divs, viols, tags, nontriv = rw._analyse(prop, trs)
+    errors += [o['err'] for o in rel if o['err']]
+    viols = viols + [v for o in rel for v in o['viol']]
+    tags = dict(tags); tags['relocation-case'] = sum(o['n'] for o in rel)
     hist = collections.Counter('backend=' + t['cfg']['backend'] for t in trs)
     return dict(suite='clone', traces=len(trs), evaluations=sum(len(t['recs']) for t in trs), distinct_nontrivial=nontriv,
                 tags=dict(tags), divergences=divs, violations=viols,
                 samples=[dict(cfg=t['cfg'], ops=t['ops'][:12], n_ops=len(t['ops'])) for t in trs[:2]],
-                errors=errors, rule=RULE, required_tags=['clone', 'evict', 'hit', 'load'], config_histogram=dict(hist))
+                errors=errors, rule=RULE, required_tags=['clone', 'evict', 'hit', 'load', 'relocation-case'], config_histogram=dict(hist))
 
 
-replay = rw.replay
-shrink_and_save = rw.shrink_and_save
+def replay(prop, obj):
+    if (obj.get('cfg') or {}).get('reloc'):
+        o = reloc_case((obj['cfg']['tier'], obj['cfg']['idx']))
+        if o['err']: raise NoVerdict(o['err'])
+        return dict(violations=[dict(prop='C20', sig=v['sig'], msg=v['msg'], i=0) for v in o['viol']], divergence=None)
+    return rw.replay(prop, obj)
+
+
+def shrink_and_save(prop, v):
+    if (v.get('cfg') or {}).get('reloc'):
+        return write_replay(prop, 'violation', dict(suite='clone', property=prop, cfg=v['cfg'], signature=v['sig'], message=v['msg'],
+                                                     how_to_replay='cd /verif && ./check C20 --replay <this file>'))
+    return rw.shrink_and_save(prop, v)
 
 
 def search(prop, tier, divergences, budget_s, known):
